@@ -316,6 +316,9 @@ func (g *Gen) precArg() int64 {
 
 // jsonNumberLit builds a JSON number (RFC 8259).
 func (g *Gen) jsonNumberLit() string {
+	if len(g.jlits) > 0 && g.R.P(1, 3) {
+		return g.jlits[g.R.N(len(g.jlits))]
+	}
 	var b strings.Builder
 	if g.R.P(1, 3) {
 		b.WriteByte('-')
